@@ -191,6 +191,13 @@ def run_check(cid, tier, seed):
         for k, v in r["known_examples"].items():
             known_examples.setdefault(k, v)
         _merge_extra(extra, r["extra"])
+    if hasattr(mod, "extra_stage"):
+        try:
+            xc, xv = mod.extra_stage(tier, seed, os.path.join(workdir, "extra"))
+            counters.update(xc)
+            violations.extend(xv)
+        except Exception:
+            problems.append("extra stage failed: %s" % traceback.format_exc()[-600:])
     if counters.get("harness_errors"):
         problems.append("%d harness errors (see evidence.harness_tracebacks)" % counters["harness_errors"])
     if counters.get("soft_deadline_cut"):
